@@ -28,7 +28,7 @@ CLAIMED = {
     },
     "C03": {
         "technique": "Coq proof (structural case analysis of every operation + chunk disjointness invariant) + allocator-ledger correspondence",
-        "text": "C03_frees / C03_no_early_free / C03_held_disjoint_from_static: only reset and drop give blocks back, exactly the ones they should, each recorded with the layout it was requested with; held blocks are pairwise disjoint and disjoint from the static. Whole histories: C03_ledger (multiset conservation: held at start + obtained = freed + still held) / C03_all_returned_after_drop / C03_only_obtained_blocks_are_freed. " + ARENA_TEXT + "The tracking allocator's ledger (apply_frees, extracted) is checked on every run, under fault plans. C03_source_frames (the statements of lib.rs that give memory back — the chunk-list walk, Drop, the sentinel test by address, set_ptr sparing the sentinel, reset's walk — pinned as text and re-checked on every run).",
+        "text": "C03_frees / C03_no_early_free / C03_held_disjoint_from_static: only reset and drop give blocks back, exactly the ones they should, each recorded with the layout it was requested with; held blocks are pairwise disjoint and disjoint from the static. Whole histories: C03_ledger (multiset conservation: held at start + obtained = freed + still held) / C03_all_returned_after_drop / C03_only_obtained_blocks_are_freed. " + ARENA_TEXT + "The tracking allocator's ledger (apply_frees, extracted) is checked on every run, under fault plans. C03_source_frames (the statements of lib.rs that give memory back — the chunk-list walk, Drop, the sentinel test by address, set_ptr sparing the sentinel, reset's walk — pinned as text and re-checked on every run). C03_source_chunk_list_walk / C03_walk_is_what_drop_and_reset_report (the loop of dealloc_chunk_list, translated from lib.rs into a statement language on every run, calls dealloc exactly once per chunk of a list of any length, newest first, with the footer's data pointer and layout, and stops at the sentinel: proved by induction over the list; these calls are what the model's drop and reset report as freed).",
         "design_ref": "DESIGN.md §6 C03",
     },
     "C06": {
